@@ -252,20 +252,20 @@ type World struct {
 	GasLimit   uint64
 	MinGas     uint64
 
-	km      *gossip.World // trusted-dealer key material of the one eon
-	keys    []*ecdsa.PrivateKey
-	addrs   []common.Address
-	eth     *fakeeth.Node
-	blocks  []*absBlock // blocks[id-1]
-	head    int
-	slot    int
-	beacon  *httptest.Server
-	bc      *beaconapiclient.Client
-	nodes   []*node
-	an      *p2p.P2PMessaging
-	plain   []byte
-	ctx     context.Context
-	cancel  context.CancelFunc
+	km     *gossip.World // trusted-dealer key material of the one eon
+	keys   []*ecdsa.PrivateKey
+	addrs  []common.Address
+	eth    *fakeeth.Node
+	blocks []*absBlock // blocks[id-1]
+	head   int
+	slot   int
+	beacon *httptest.Server
+	bc     *beaconapiclient.Client
+	nodes  []*node
+	an     *p2p.P2PMessaging
+	plain  []byte
+	ctx    context.Context
+	cancel context.CancelFunc
 
 	hi       []int // highest slot ticked per keyper (the clock; survives a restart)
 	inflight []*packet
